@@ -2,9 +2,10 @@ import Driver.Run
 import Driver.Fam.Control
 import Driver.Fam.Sequence
 import Driver.Fam.Relmap
+import Driver.Fam.SequenceCluster
 open Driver
 /-- families of area "control" (pg_control, sequences, relation maps) -/
 def main (args : List String) : IO UInt32 :=
   run [Fam.control, Fam.controlOrig, Fam.controlBits, Fam.controlVer, Fam.controlRead, Fam.controlTotal, Fam.controlAny, Fam.controlPg10,
        Fam.sequence, Fam.sequenceOrig, Fam.isseq, Fam.isseqOrig, Fam.seqAny, Fam.seqAnyOrig, Fam.seqTotal,
-       Fam.relmap, Fam.relmapTotal] args
+       Fam.relmap, Fam.relmapTotal, Fam.seqfind, Fam.seqscan, Fam.relmapRead] args
